@@ -271,7 +271,8 @@ prop(
                 ".gitignore, .ignore, global git ignore, global watchexec ignore, default-ignored paths) and probed with one event "
                 "per source; the explicit ignore file has a file-name line and lines naming directories (dir/, /rooted, name), probed "
                 "with files below those directories. Oracle: a source-activation table written from the flags' help texts; explicit "
-                "options never off"),
+                "options never off. A second pass gives the same project through --project-origin while the process is started in a "
+                "sub-directory without a VCS marker of its own, and judges the source-activation table again"),
     level_note="one fixture layout; git config is isolated through HOME / XDG_CONFIG_HOME / GIT_CONFIG_NOSYSTEM; the end-to-end binary is not involved here",
     technique="exhaustive differential run of the real CLI filter construction against a source-activation table (reference-model monitor)",
     rule="evaluations = (flag subset, explicit option set) pairs, all distinct; each judges 1-7 explicit probes and 6 single-source probes",
@@ -297,7 +298,9 @@ prop(
                 "verdict pass / reject / error, queue size {1, 2, 8, 4096} (back pressure), throttle {0, 1, 5, 20, 50 ms}, sync and async "
                 "handlers of 0-10 ms, arrival gaps from 0 to 2x throttle; plus real filesystem operations (create / write / rename / "
                 "remove / mkdir -p / rm -r) under the native and the poll watcher, each notify event stamped with a unique id by a "
-                "wrapping watcher (hook H1). Offline set oracle: delivered multiset == {sent ok and (urgent or empty or pass)} with all "
+                "wrapping watcher (hook H1); OS signals sent to the process and keyboard EOF (stdin already at EOF, or a pipe that "
+                "is closed after the source was enabled and 1-4 other settings changed: exactly one event, also after later "
+                "changes). Offline set oracle: delivered multiset == {sent ok and (urgent or empty or pass)} with all "
                 "multiplicities 1, nothing rejected / erroring / unsent delivered, no empty batch"),
     level_note=_RT_NOTE + "; loss inside inotify / notify before the hook is out of reach",
     technique="offline conservation checker (exactly-once / no-loss between producer and consumer event logs) over stress workloads",
@@ -429,7 +432,7 @@ prop(
     level_text=("library part: generated Commands — Exec{helper, args} with arguments from a hostile pool (empty string, spaces, quotes, "
                 "$VAR, globs, ;, newlines, tabs, multi-byte, 4 KiB) and Shell{prog = the helper itself, options, program_option in "
                 "{-c, /C, none}, command, extra args} — spawned through start_job plain / grouped / session; the helper dumps its "
-                "argv bytes, cwd, pgid, sid and environment. Oracle: argv byte for byte and in the documented order; grouped => "
+                "argv bytes, cwd, pgid, sid and environment (session spawns half of the time with `grouped` set as well). Oracle: argv byte for byte and in the documented order; grouped => "
                 "pgid == pid != ours; session => sid == pid; plain => our pgid and sid; env / cwd set by the spawn hook visible, and "
                 "absent when the hook did not set them. CLI part: `watchexec -1` with -n, --shell=none and --shell='<helper> opts' "
                 "(the helper is the shell and must receive <opts> -c '<words joined by single spaces>') x --wrap-process"),
